@@ -74,6 +74,15 @@ def sec_c01_contracts(rep):
     c01.sec_convolve_vector(rep)
 
 
+def sec_sv_tables(rep):
+    """The scale-variation operators are functions of the interpolation operators entry by entry
+    ('- beta0 * identity' touches the diagonal only): a table that mixed a scalar into every entry
+    would grow with the number of nodes and spoil refinement (C05 contract, re-discharged here)."""
+    from . import c05
+
+    c05.sec_tables(rep)
+
+
 def toy_pdf():
     class Toy:
         def hasFlavor(self, pid):
@@ -129,7 +138,7 @@ def run(rep, tier, seed, only=None):
         "spec integral continuous in x: textbook, given continuous basis functions that vanish at the borders of their support (A-eko; bounded stand-in on six grids, every x)",
         "A-quad: scipy.integrate.quad returns the integral it is given (C01)",
     )
-    for nm, f in (("wiring", sec_runner_wiring), ("c01", sec_c01_contracts), ("aeko", H.eko_basis_standin), ("refinement", lambda r: sec_refinement_bounded(r, tier))):
+    for nm, f in (("wiring", sec_runner_wiring), ("c01", sec_c01_contracts), ("svtables", sec_sv_tables), ("aeko", H.eko_basis_standin), ("refinement", lambda r: sec_refinement_bounded(r, tier))):
         if only and only not in nm:
             continue
         rep.add(guarded(f"C19/{nm}", lambda f=f: (f(rep), [])[1]))
